@@ -293,58 +293,4 @@ Proof.
   rewrite (i64_small _ Hs), clamp_max. reflexivity.
 Qed.
 
-Lemma decode_shape_roundtrip x :
-  shape_ok x = true -> decode_key u (shape_seq x) = shape_spec u x.
-Proof.
-  destruct x as [n s b n0 m e n1 tx fin]. unfold shape_ok. cbn [sh_n sh_s sh_b sh_n0 sh_m sh_e sh_n1 sh_tx sh_fin].
-  intros H.
-  repeat (apply andb_true_iff in H; destruct H as [H ?H]).
-  rename H into Hn, H7 into Hs, H6 into Hb, H5 into Hm, H4 into He, H3 into Hn0, H2 into Hn1, H1 into Htx, H0 into H27, H8 into Hbt.
-  unfold decode_key, shape_seq, shape_spec. rewrite finish_spec. f_equal.
-  cbn [sh_n sh_s sh_b sh_n0 sh_m sh_e sh_n1 sh_tx sh_fin decode_pre].
-  unfold shape_params. cbn [sh_n sh_s sh_b sh_n0 sh_m sh_e sh_n1 sh_tx sh_fin].
-  assert (Hms : -1 <= m - 1 < 2147483648) by (unfold small in Hm; lia).
-  assert (Hes : -1 <= e - 1 < 2147483648) by (unfold small in He; lia).
-  assert (C0 : n0 = 0 \/ n0 = 1 \/ n0 = 2) by (unfold in_range in Hn0; lia).
-  assert (C1 : n1 = 0 \/ n1 = 1 \/ n1 = 2) by (unfold in_range in Hn1; lia).
-  assert (Htxfix : forall l, forallb small l = true -> map (fun p => rune_fix (i32 p)) l = map rune_fix l).
-  { intros l Hl. apply map_ext_in. intros a Ha. rewrite forallb_forall in Hl. now rewrite i32_small by auto. }
-  (* the key code *)
-  destruct ((n =? 1) && (fin =? 90)) eqn:Ebt.
-  - (* back-tab *)
-    destruct C0 as [-> | [-> | ->]]; destruct C1 as [-> | [-> | ->]]; destruct tx as [tx|];
-      cbn [Z.eqb Pos.eqb Z.leb Z.compare Pos.compare Pos.compare_cont] in *;
-      unfold decode_csi; cbn [nth_error]; unfold csi_p0, csi_p1, csi_p2; cbn [nth_error];
-      rewrite ?(i32_small n Hn), ?(i32_small s Hs), ?(i32_small b Hb), ?Ebt;
-      cbn [k_mods k_text k_code k_shifted k_base k_event key0 app];
-      try discriminate;
-      rewrite ?(i64_small _ Hms), ?(i64_small _ Hes), ?clamp_max;
-      change ModShift with 1; change KeyTab with 9;
-      assert (Hm1 : 0 <= m - 1) by (try (apply negb_true_iff in Hbt; apply Z.eqb_neq in Hbt); unfold small in Hm; lia);
-      assert (Hl : 0 <= Z.lor 1 (m - 1)) by (apply Z.lor_nonneg; lia);
-      rewrite ?(Z.max_r 0 (m - 1)) by lia; rewrite ?(Z.max_r 0 (Z.lor 1 (m - 1))) by lia;
-      try reflexivity;
-      destruct tx as [|t tx']; cbn [app map]; try reflexivity;
-      change ((9 =? 27) && (fin =? 126)) with false; cbv iota; cbn [k_mods k_text k_code k_shifted k_base k_event app];
-      rewrite ?(Htxfix _ Htx); reflexivity.
-  - rewrite <- special_code_exact.
-    destruct C0 as [-> | [-> | ->]]; destruct C1 as [-> | [-> | ->]]; destruct tx as [tx|];
-      cbn [Z.eqb Pos.eqb Z.leb Z.compare Pos.compare Pos.compare_cont] in *;
-      unfold decode_csi; cbn [nth_error]; unfold csi_p0, csi_p1, csi_p2; cbn [nth_error];
-      rewrite ?(i32_small n Hn), ?(i32_small s Hs), ?(i32_small b Hb), ?Ebt;
-      cbn [k_mods k_text k_code k_shifted k_base k_event key0 app];
-      rewrite ?Z.lor_0_l, ?(i64_small _ Hms), ?(i64_small _ Hes), ?clamp_max;
-      change (i64 (0 - 1)) with (-1); change (Z.max 0 (-1)) with 0; change (Z.lor 0 (-1)) with (-1); change (-1 <? 0) with true; cbv iota;
-      try reflexivity;
-      (destruct tx as [|t tx']; cbn [app map]; [reflexivity|]);
-      (destruct ((special_code n fin =? 27) && (fin =? 126)) eqn:E27;
-       [ exfalso; apply andb_true_iff in E27 as [Ec Ef]; apply Z.eqb_eq in Ef; subst fin;
-         apply negb_true_iff in H27; apply andb_false_iff in H27 as [H27|H27]; [|discriminate];
-         apply andb_false_iff in H27 as [H27|H27]; [|discriminate];
-         apply Z.eqb_eq in Ec; apply Z.eqb_neq in H27;
-         revert Ec; unfold special_code; destruct (lookup2_in specialsKeys n 126) as [En|[k [Hin En]]]; rewrite En;
-         [ intros; contradiction | intros ->; revert Hin; clear; intros Hin; vm_compute in Hin; repeat (destruct Hin as [Hin|Hin]; [discriminate|]); contradiction ]
-       | cbn [k_mods k_text k_code k_shifted k_base k_event app]; rewrite ?(Htxfix _ Htx); reflexivity ]).
-Qed.
-
 End Decode.
